@@ -44,6 +44,12 @@ def _idna(label):
         return None
 
 
+def in_model_domain(case):
+    """the extracted model is quadratic in the length of its input (lists of code points): the longest inputs, which are there for
+    the running-time clause of the implementation, are judged by the oracle only"""
+    return len(case["url"]) <= 4000
+
+
 def encode(case):
     t = [[S(l), Opt(_idna(l), S)] for l in _labels(case["url"])]
     return [S(case["url"]), t]
@@ -185,7 +191,9 @@ def oracle(case, obs):
     if scheme in ("http", "https") and host:
         if scheme != scheme.lower():
             return "scheme not lower-cased"
-        if host != host.lower() and host.isascii():
+        # (an IPv6 zone identifier is an opaque, case-sensitive interface name: only what precedes it is a host name)
+        hname = host[:host.index("%")] if host.startswith("[") and "%" in host else host
+        if hname != hname.lower() and hname.isascii():
             return "host %r not lower-cased" % host
         if path:
             segs = path.split("/")
@@ -265,9 +273,9 @@ def grammar_url(rng):
 
 def cases(rng, tier):
     out = []
-    L = 3 if tier == "quick" else 4
+    L = 3 if tier == "quick" else 5
     short = ["".join(p) for k in range(0, L + 1) for p in itertools.product(ALPHA, repeat=k)]
-    cap = 40000 if tier == "quick" else 400000
+    cap = 40000 if tier == "quick" else 1200000
     for pre in PREFIXES:
         for s in short:
             out.append({"url": pre + s})
